@@ -96,7 +96,7 @@ func init() {
 	mutant("refused-data-ok-but-priority-skip", "hdr-must-decode", "serverConn.go", "					sc.writeGoAway(fr.Stream(), ProtocolError, \"stream ID is lower than the latest\")\n\n					if canCloseAfterGoAway() {\n						break loop\n					}\n", "					sc.writeReset(fr.Stream(), ProtocolError)\n")
 	mutant("data-on-closed-stream-reset-only", "data-must-credit", "serverConn.go", "					default:\n						sc.writeGoAway(fr.Stream(), StreamClosedError, \"frame on closed stream\")\n\n						if canCloseAfterGoAway() {\n							break loop\n						}\n					}", "					default:\n						sc.writeReset(fr.Stream(), StreamClosedError)\n					}")
 	mutant("refill-wrong-increment", "recv-window-refill", "serverConn.go", "		inc := sc.maxWindow - sc.currentWindow\n		sc.currentWindow = sc.maxWindow", "		inc := sc.maxWindow\n		sc.currentWindow = sc.maxWindow")
-	mutant("cli-debit-data-length", "recv-window-refill", "conn.go", "		c.consumeConnWindow(fr.Len())\n\n		data := fr.Body().(*Data)", "		c.consumeConnWindow(fr.Body().(*Data).Len())\n\n		data := fr.Body().(*Data)")
+	mutant("cli-debit-data-length", "recv-window-refill", "conn.go", "func (c *Conn) creditData(fr *FrameHeader) {\n	c.consumeConnWindow(fr.Len())", "func (c *Conn) creditData(fr *FrameHeader) {\n	c.consumeConnWindow(fr.Body().(*Data).Len())")
 	mutant("zero-increment-possible", "increment-positive", "serverConn.go", "	if n <= 0 {\n		return\n	}\n\n	// The body has already been copied", "	if n < 0 {\n		return\n	}\n\n	// The body has already been copied")
 	// ---- client
 	mutant("nextid-plus-one", "cli-stream-id", "conn.go", "atomic.StoreUint32(&c.nextID, id+2)", "atomic.StoreUint32(&c.nextID, id+1)")
@@ -153,7 +153,7 @@ func init() {
 	mutant("stray-continuation-forwarded", "continuation-sequencing", "serverConn.go", "		} else if fr.Type() == FrameContinuation {\n			sc.writeGoAway(0, ProtocolError, \"unexpected CONTINUATION frame\")\n			ReleaseFrameHeader(fr)\n			return errConnClosed\n		} else if", "		} else if")
 	mutant("even-stream-id-accepted", "read-loop-connection-errors", "serverConn.go", "	if fr.Stream()&1 == 0 {\n		return NewGoAwayError(ProtocolError, \"invalid stream id\")\n	}\n", "")
 	mutant("zero-window-update-ignored", "read-loop-connection-errors", "serverConn.go", "			if win == 0 {\n				sc.writeGoAway(0, ProtocolError, \"window increment of 0\")\n				ReleaseFrameHeader(fr)\n				return errConnClosed\n			}\n", "			_ = win\n")
-	mutant("resolve-before-drop", "client-finish-order", "conn.go", "	c.deletePending(stream)\n\n	r.markFinished()\n	r.resolve(err)", "	r.markFinished()\n	r.resolve(err)\n\n	c.deletePending(stream)")
+	mutant("resolve-before-drop", "client-finish-order", "conn.go", "	if c.deletePending(stream) && err == nil {\n		c.cancelStream(stream, StreamCanceled)\n	}\n\n	r.markFinished()\n	r.resolve(err)", "	r.markFinished()\n	r.resolve(err)\n\n	if c.deletePending(stream) && err == nil {\n		c.cancelStream(stream, StreamCanceled)\n	}")
 	mutant("ctx-always-recycled", "client-finish-order", "client.go", "	if reuse {\n		releaseCtx(ctx)\n	}", "	_ = reuse\n	releaseCtx(ctx)")
 	mutant("push-ignored", "client-finish-order", "conn.go", "			c.setLastErr(NewGoAwayError(ProtocolError, \"server pushed with push disabled\"))\n			ReleaseFrameHeader(fr)\n\n			break", "			ReleaseFrameHeader(fr)\n\n			continue")
 	mutant("copyto-misses-framesize", "settings-copy-complete", "settings.go", "	st2.frameSize = st.frameSize\n", "")
@@ -485,12 +485,12 @@ func init() {
 }
 
 func init() {
-	mutant("dispatch-finishes-under-the-ctx-lock", "no-self-deadlock", "conn.go", "	err := c.readStreamOwned(fr, r)\n	if err == nil {", "	defer r.release()\n\n	err := c.readStream(fr, r.Response)\n	if err == nil {")
+	mutant("dispatch-finishes-under-the-ctx-lock", "no-self-deadlock", "conn.go", "	err := c.readStreamOwned(fr, r)\n", "	defer r.release()\n\n	err := c.readStream(fr, r.Response)\n")
 	mutant("write-failure-cleans-up-under-the-ctx-lock", "no-self-deadlock", "conn.go", "		release()\n		c.deletePending(id)\n", "		c.deletePending(id)\n")
 }
 
 func init() {
-	mutant("send-lock-held-while-taking-the-ctx", "lock-order", "conn.go", "	delete(c.pending, id)\n	c.sendLck.Unlock()\n\n	if pb == nil || pb.stream == nil {", "	delete(c.pending, id)\n	defer c.sendLck.Unlock()\n\n	if pb == nil || pb.stream == nil {")
+	mutant("send-lock-held-while-taking-the-ctx", "lock-order", "conn.go", "	delete(c.pending, id)\n	c.sendLck.Unlock()\n\n	if pb == nil {", "	delete(c.pending, id)\n	defer c.sendLck.Unlock()\n\n	if pb == nil {")
 }
 
 func init() {
@@ -572,4 +572,22 @@ func init() {
 	mutant("client-drops-unowned-header-blocks", "late-and-graceful-frames", "conn.go", "		if fr.Type() == FrameData {\n			c.consumeConnWindow(fr.Len())\n		}\n\n		return c.skipHeaderBlock(fr)\n	}\n\n	// A canceled", "		if fr.Type() == FrameData {\n			c.consumeConnWindow(fr.Len())\n		}\n\n		return false\n	}\n\n	// A canceled")
 	mutant("zero-reference-means-no-goaway", "conn-lifecycle", "serverConn.go", "		ref := atomic.LoadUint32(&sc.closeRef)\n\n		for _, strm := range strms {", "		ref := atomic.LoadUint32(&sc.closeRef)\n		if ref == 0 {\n			return false\n		}\n\n		for _, strm := range strms {")
 	mutant("error-goaway-then-sleep", "conn-lifecycle", "serverConn.go", "						sc.writeGoAway(fr.Stream(), ProtocolError, \"RST_STREAM on idle stream\")\n\n						// No further frame may ever reach this loop, so this\n						// is the moment to notice that nothing is left to\n						// wait for.\n						if canCloseAfterGoAway() {\n							break loop\n						}\n", "						sc.writeGoAway(fr.Stream(), ProtocolError, \"RST_STREAM on idle stream\")\n")
+}
+
+func init() {
+	mutant("new-stream-window-read-outside-the-lock", "access-discipline", "conn.go", "		c.sendLck.Lock()\n		pb.window = c.streamWindow\n		c.pending[id] = pb", "		pb.window = c.streamWindow\n		c.sendLck.Lock()\n		c.pending[id] = pb")
+	allMutants = append(allMutants, Mutant{Name: "data-credited-under-the-ctx-again", Rule: "no-blocking-under-ctx-lock", Subs: []Subst{
+		{File: "conn.go", Old: "	defer r.release()\n\n	return c.readStream(fr, r.Response)", New: "	defer r.release()\n\n	if fr.Type() == FrameData {\n		c.creditData(fr)\n	}\n\n	return c.readStream(fr, r.Response)"},
+		{File: "conn.go", Old: "	if fr.Type() == FrameData {\n		c.creditData(fr)\n	}\n\n	if err == nil {", New: "	if err == nil {"},
+	}})
+	mutant("answered-data-never-credited", "data-must-credit", "conn.go", "	if fr.Type() == FrameData {\n		c.creditData(fr)\n	}\n\n	if err == nil {", "	if err == nil {")
+	mutant("consumed-body-stream-test-inverted", "retry-predicate", "client.go", "		if streamed && !req.IsBodyStream() {", "		if streamed && req.IsBodyStream() {")
+	mutant("consumed-body-stream-only-after-first-retry", "retry-predicate", "client.go", "		if streamed && !req.IsBodyStream() {", "		if streamed && !req.IsBodyStream() && attempt > 0 {")
+	mutant("consumed-body-stream-left-to-fasthttp", "retry-predicate", "client.go", "		if streamed && !req.IsBodyStream() {\n			return false, err", "		if streamed && !req.IsBodyStream() {\n			return true, err")
+	mutant("pending-body-kept-on-error", "client-request-shape", "conn.go", "	if c.deletePending(stream) && err == nil {", "	if err == nil && c.deletePending(stream) {")
+	mutant("abandoned-body-never-reset", "client-request-shape", "conn.go", "	if c.deletePending(stream) && err == nil {", "	if c.deletePending(stream) && err != nil {")
+	mutant("delete-pending-always-true", "client-request-shape", "conn.go", "	if pb == nil {\n		return false\n	}\n\n	if pb.stream == nil {\n		return true", "	if pb == nil {\n		return true\n	}\n\n	if pb.stream == nil {\n		return true")
+	mutant("abandoned-stream-body-left-open", "client-request-shape", "conn.go", "	defer pb.ctx.release()\n\n	c.closeBodyStream(pb)\n\n	return true", "	defer pb.ctx.release()\n\n	return true")
+	mutant("unsent-debit-not-refunded", "window-writers", "conn.go", "			c.connWindow += int32(n)\n", "			_ = n\n")
+	mutant("unsent-debit-refunded-twice", "window-writers", "conn.go", "			c.connWindow += int32(n)\n", "			c.connWindow += 2 * int32(n)\n")
 }
